@@ -537,6 +537,11 @@ func runHistory(m *modCfg, id string, r *vh.Rand, steps int, o *vh.Out) {
 	h.dir = filepath.Join(m.root, h.sub)
 	must(os.MkdirAll(h.dir, 0o755))
 	defer os.RemoveAll(h.dir)
+	for k := r.Intn(6); k > 0; k-- { // a package directory usually starts with some files
+		n := genName(r)
+		h.names[n] = true
+		writeFile(filepath.Join(h.dir, n), genSize(r), genMtime(r))
+	}
 	h.snapshot("init")
 	for i := 0; i < steps; i++ {
 		op := h.step(r)
